@@ -227,6 +227,30 @@ func c13Random(t *rapid.T) {
 	if c13One(t, cmd, args, white, black) {
 		return
 	}
+	// the rewritten argument list of one command is still what it was after the next command has been filtered (the
+	// parser hands results on to a queue before it filters the next command)
+	if len(white) > 0 || len(black) > 0 {
+		conf.Options.FilterKeyWhitelist, conf.Options.FilterKeyBlacklist = white, black
+		cp := func(a [][]byte) [][]byte {
+			out := make([][]byte, len(a))
+			for i := range a {
+				out[i] = append([]byte{}, a[i]...)
+			}
+			return out
+		}
+		first, rej1 := filter.HandleFilterKeyWithCommand(cmd, cp(args))
+		snapshot := cp(first)
+		nextKeys := [][]byte{[]byte("del")}
+		for i := rapid.IntRange(1, 6).Draw(t, "nextKeys"); i > 0; i-- {
+			nextKeys = append(nextKeys, []byte(keyGen.Draw(t, "nextKey")))
+		}
+		filter.HandleFilterKeyWithCommand("del", nextKeys)
+		conf.Options.FilterKeyWhitelist, conf.Options.FilterKeyBlacklist = nil, nil
+		if !rej1 && !sameArgs(first, snapshot) {
+			violation(t, "C13", "result-overwritten", "%s %s (white %q black %q) was rewritten to %q; after the next command (%s) had been filtered the same result reads %q", cmd, joinArgs(args), white, black, joinArgs(snapshot), joinArgs(nextKeys), joinArgs(first))
+			return
+		}
+	}
 	stats.C.Case(nk >= 2 && (len(white) > 0 || len(black) > 0), stats.HashS(fmt.Sprint(cmd, joinArgs(args), white, black)), "random")
 	if nk >= 3 && len(black) > 0 {
 		stats.C.Sample(fmt.Sprintf("%s %q blacklist %q", cmd, joinArgs(args), black))
